@@ -1,5 +1,6 @@
 SPECIFICATION Spec
 CONSTANTS MaxEdit = 5  MaxInv = 6  MaxKill = 0  MaxFail = 0  GenDepth = 260
+CONSTANT Flags = {"plain"}
 CONSTANT Weak = {}
 INVARIANT GenPrint
 CHECK_DEADLOCK FALSE
